@@ -221,7 +221,13 @@ int skinny64_ctr_init(Skinny64CTR_t *ctr)
     ctr->vtable = vtable;
 
     /* Initialize the CTR mode context */
-    return (*(vtable->init))(ctr);
+    if (!(*(vtable->init))(ctr)) {
+        /* Leave an inert object behind if the allocation failed */
+        ctr->vtable = 0;
+        ctr->ctx = 0;
+        return 0;
+    }
+    return 1;
 }
 
 void skinny64_ctr_cleanup(Skinny64CTR_t *ctr)
